@@ -50,6 +50,50 @@ def _simple_arg(e: ast.AST) -> bool:
     return False
 
 
+def _beta_reduce(node: ast.AST) -> ast.AST:
+    """(lambda a, b: E)(x, y) -> E[a := x, b := y] when that is the same evaluation: plain positional parameters, as many plain
+    arguments, and every argument either simple (a name / attribute / constant: may be read any number of times) or used exactly once
+    in E outside any nested lambda, comprehension or conditional part (so it is still evaluated exactly once)."""
+    if not (isinstance(node, ast.Call) and isinstance(node.func, ast.Lambda)) or node.keywords or any(isinstance(a, ast.Starred) for a in node.args):
+        return node
+    la = node.func.args
+    if la.vararg or la.kwarg or la.kwonlyargs or la.defaults or la.kw_defaults:
+        return node
+    params = [a.arg for a in list(la.posonlyargs) + list(la.args)]
+    if len(params) != len(node.args):
+        return node
+    body = node.func.body
+    if any(isinstance(n, (ast.Lambda, ast.NamedExpr, ast.Yield, ast.YieldFrom, ast.Await)) for n in ast.walk(body)):
+        return node
+    shielded = set()
+    for n in ast.walk(body):
+        parts = []
+        if isinstance(n, (ast.ListComp, ast.SetComp, ast.GeneratorExp, ast.DictComp)):
+            parts = [n]
+        elif isinstance(n, ast.IfExp):
+            parts = [n.body, n.orelse]
+        elif isinstance(n, ast.BoolOp):
+            parts = n.values[1:]
+        for q in parts:
+            for m in ast.walk(q):
+                shielded.add(id(m))
+    for pn, a in zip(params, node.args):
+        if _simple_arg(a):
+            continue
+        uses = [n for n in ast.walk(body) if isinstance(n, ast.Name) and n.id == pn]
+        if len(uses) != 1 or id(uses[0]) in shielded:
+            return node
+    if sum(1 for a in node.args if not _simple_arg(a)) > 1:
+        return node  # the order in which two non-trivial arguments are evaluated could change
+    return ast.copy_location(_Subst(dict(zip(params, node.args))).visit(copy.deepcopy(body)), node)
+
+
+class _BetaReduce(ast.NodeTransformer):
+    def visit_Call(self, node):
+        self.generic_visit(node)
+        return _beta_reduce(node)
+
+
 class _Subst(ast.NodeTransformer):
     def __init__(self, mapping: Dict[str, ast.AST]):
         self.mapping = mapping
@@ -212,19 +256,26 @@ class ModuleCanon:
                     imported_here[(al.asname or al.name).split(".")[0]] = (al.name, 0, None)
         extra_imports = []
         for imp in list(self.tree.body):
-            if not isinstance(imp, ast.ImportFrom) or not imp.level:
+            if not isinstance(imp, ast.ImportFrom):
                 continue
-            base = pkg[: len(pkg) - imp.level] if not self.modname.endswith("__init__") else pkg
-            src = ".".join(base + (imp.module.split(".") if imp.module else []))
+            if imp.level:
+                base = pkg[: len(pkg) - imp.level] if not self.modname.endswith("__init__") else pkg
+                src = ".".join(base + (imp.module.split(".") if imp.module else []))
+            elif imp.module and imp.module.startswith("orquestra.quantum."):
+                src = imp.module[len("orquestra.quantum."):]  # the same package, imported by its absolute name
+            else:
+                continue
             for al in imp.names:
                 key = (src, al.name)
                 if key not in _NEW_HELPERS or al.asname or al.name in local_names:
                     continue
                 fn, src_level_names, src_imports = _NEW_HELPERS[key]
                 params = {a.arg for a in fn.args.args}
-                expr = [x for x in fn.body if isinstance(x, ast.Return)][0].value
-                bound_inside = {n.id for c in ast.walk(expr) if isinstance(c, ast.comprehension) for n in ast.walk(c.target) if isinstance(n, ast.Name)}
-                free = {n.id for n in ast.walk(expr) if isinstance(n, ast.Name)} - params - bound_inside
+                stmts_ = strip_docstring(fn.body)
+                bound_inside = {n.id for x in stmts_ for c in ast.walk(x) if isinstance(c, ast.comprehension) for n in ast.walk(c.target) if isinstance(n, ast.Name)}
+                bound_inside |= {n.id for x in stmts_ for n in ast.walk(x) if isinstance(n, ast.Name) and isinstance(n.ctx, ast.Store)}
+                free = {n.id for x in stmts_ for n in ast.walk(x) if isinstance(n, ast.Name)} - params - bound_inside
+                free |= {n.id for a_ in fn.args.defaults for n in ast.walk(a_) if isinstance(n, ast.Name)}
                 ok = True
                 needed = []
                 for nm in free:
@@ -417,7 +468,7 @@ class ModuleCanon:
                 if prelude:
                     return node  # would need hoisting: leave the call
                 canon.inlined.append(qual)
-                return _Subst(mapping).visit(copy.deepcopy(body[0].value))
+                return _BetaReduce().visit(_Subst(mapping).visit(copy.deepcopy(body[0].value)))
 
             def visit_Lambda(self, node):
                 return node
@@ -937,6 +988,10 @@ class _Strip(ast.NodeTransformer):
 
     def visit_Call(self, node):
         self.generic_visit(node)
+        if isinstance(node.func, ast.Lambda):
+            r = _beta_reduce(node)
+            if r is not node:
+                return r
         d = dotted(node.func)
         if d in ("cast", "typing.cast") and len(node.args) == 2:
             return node.args[1]
@@ -2574,6 +2629,48 @@ def _inline_local_expr_functions(f: ast.FunctionDef) -> None:
         ast.fix_missing_locations(f)
 
 
+def _unroll_singleton_loops(f: ast.FunctionDef) -> None:
+    """`for a, b in zip([x], [y]): BODY` / `for a in [x]: BODY` with simple x, y -> BODY[a := x, b := y]: one iteration, the loop
+    variables only stand for the listed items (not stored in the body, not read outside the loop, no break / continue / else)."""
+
+    def items_of(it: ast.AST, target: ast.AST):
+        if isinstance(it, (ast.List, ast.Tuple)) and len(it.elts) == 1 and isinstance(target, ast.Name):
+            return {target.id: it.elts[0]}
+        if isinstance(it, ast.Call) and dotted(it.func) == "zip" and not it.keywords and isinstance(target, ast.Tuple) and len(target.elts) == len(it.args) and all(isinstance(t, ast.Name) for t in target.elts) and all(isinstance(a, (ast.List, ast.Tuple)) and len(a.elts) == 1 for a in it.args):
+            return {t.id: a.elts[0] for t, a in zip(target.elts, it.args)}
+        return None
+
+    def walk_blocks(stmts: List[ast.stmt]):
+        k = 0
+        while k < len(stmts):
+            st = stmts[k]
+            if isinstance(st, ast.For) and not st.orelse:
+                m = items_of(st.iter, st.target)
+                if m is not None and all(_simple_arg(v) and not isinstance(v, ast.Starred) for v in m.values()):
+                    inner = [n for x in st.body for n in ast.walk(x)]
+                    jumps = any(isinstance(n, (ast.Break, ast.Continue, ast.Return, ast.FunctionDef, ast.Lambda, ast.Yield, ast.YieldFrom)) for n in inner)
+                    stored = any(isinstance(n, ast.Name) and n.id in m and isinstance(n.ctx, (ast.Store, ast.Del)) for n in inner)
+                    inside = {id(n) for n in ast.walk(st)}
+                    used_outside = any(isinstance(n, ast.Name) and n.id in m and id(n) not in inside for n in ast.walk(f))
+                    # the substituted items must not be changed by the body before their last use: only allow names / attributes the body never stores
+                    item_names = {n.id for v in m.values() for n in ast.walk(v) if isinstance(n, ast.Name)}
+                    items_rebound = any(isinstance(n, ast.Name) and n.id in item_names and isinstance(n.ctx, (ast.Store, ast.Del)) for n in inner)
+                    if not (jumps or stored or used_outside or items_rebound):
+                        new_body = [_Subst(m).visit(copy.deepcopy(x)) for x in st.body]
+                        stmts[k:k + 1] = new_body
+                        continue
+            for field in ("body", "orelse", "finalbody"):
+                v = getattr(st, field, None)
+                if isinstance(v, list) and v and isinstance(v[0], ast.stmt) and not isinstance(st, (ast.FunctionDef, ast.AsyncFunctionDef, ast.ClassDef)):
+                    walk_blocks(v)
+            if isinstance(st, ast.Try):
+                for h in st.handlers:
+                    walk_blocks(h.body)
+            k += 1
+
+    walk_blocks(f.body)
+
+
 def canonical_function(fn: ast.FunctionDef, _nested: bool = False, rename: bool = True) -> ast.FunctionDef:
     f = fn if _nested else copy.deepcopy(fn)
     f.decorator_list = list(f.decorator_list)
@@ -2600,6 +2697,8 @@ def canonical_function(fn: ast.FunctionDef, _nested: bool = False, rename: bool 
     canon_nested(f.body)
     f = _Strip().visit(f)
     f = _LoopIdioms().visit(f)
+    ast.fix_missing_locations(f)
+    _unroll_singleton_loops(f)
     ast.fix_missing_locations(f)
     _augadd_to_extend(f)
     f = _IterIdioms().visit(f)
